@@ -244,3 +244,63 @@ func (s *Sess) EndByClose() error {
 		}
 	}
 }
+
+// Both hands a client message to the session and makes the downstream handler
+// emit a server message at the same moment, so that the two directions of the
+// handler under test work on them in parallel. It returns when a barrier behind
+// the client message and a marker behind the server message have both come back.
+func (s *Sess) Both(m mocrelay.ClientMsg, sm mocrelay.ServerMsg) (forwarded []mocrelay.ClientMsg, got []mocrelay.ServerMsg, err error) {
+	s.n++
+	bar := fmt.Sprintf("%s%d", barrierPrefix, s.n)
+	mark := fmt.Sprintf("%s%d", markerPrefix, s.n)
+	gate := make(chan struct{})
+	errc := make(chan error, 2)
+	go func() {
+		<-gate
+		if err := s.put(m); err != nil {
+			errc <- err
+			return
+		}
+		errc <- s.put(&mocrelay.ClientCloseMsg{SubscriptionID: bar})
+	}()
+	go func() {
+		<-gate
+		select {
+		case s.down.emit <- []mocrelay.ServerMsg{sm, mocrelay.NewServerNoticeMsg(mark)}:
+			errc <- nil
+		case <-s.down.done:
+			errc <- fmt.Errorf("downstream handler ended")
+		case <-time.After(stepTimeout):
+			errc <- fmt.Errorf("timeout handing messages to the downstream handler")
+		}
+	}()
+	close(gate)
+	want := map[string]bool{bar: true, mark: true}
+	timer := time.NewTimer(stepTimeout)
+	defer timer.Stop()
+	for len(want) > 0 && err == nil {
+		select {
+		case x := <-s.send:
+			if n, ok := x.(*mocrelay.ServerNoticeMsg); ok && want[n.Message] {
+				delete(want, n.Message)
+				continue
+			}
+			got = append(got, x)
+		case e := <-s.ret:
+			s.ret <- e
+			err = fmt.Errorf("session ended during a parallel step: %v", e)
+		case <-timer.C:
+			err = fmt.Errorf("timeout in a parallel step (got %d messages)", len(got))
+		}
+	}
+	if err != nil {
+		return nil, got, err
+	}
+	for i := 0; i < 2; i++ {
+		if e := <-errc; e != nil && err == nil {
+			err = e
+		}
+	}
+	forwarded = s.down.take()
+	return
+}
